@@ -1850,3 +1850,38 @@ func (c *Ctx) mapEqualityShape(g *ssa.Function) bool {
 	}
 	return true
 }
+
+// isOrServesOnly: f is one of the named functions, or an unexported module function all of whose callers (call graph,
+// up to three levels) are: a helper that exists only to serve the named functions inherits what was reviewed for them.
+func (c *Ctx) isOrServesOnly(f *ssa.Function, names ...string) bool {
+	set := map[string]bool{}
+	for _, n := range names {
+		set[n] = true
+	}
+	var rec func(g *ssa.Function, depth int) bool
+	rec = func(g *ssa.Function, depth int) bool {
+		if set[fname(g)] {
+			return true
+		}
+		if depth > 3 || g.Object() == nil || g.Object().Exported() && g.Signature.Recv() == nil {
+			return false
+		}
+		if g.Object().Exported() {
+			return false
+		}
+		node := c.CG.Nodes[g]
+		if node == nil || len(node.In) == 0 {
+			return false
+		}
+		for _, e := range node.In {
+			if e.Caller.Func == g {
+				continue
+			}
+			if !rec(e.Caller.Func, depth+1) {
+				return false
+			}
+		}
+		return true
+	}
+	return rec(f, 0)
+}
